@@ -255,6 +255,43 @@ func (f *Frame) specCall(st *State, e *ast.CallExpr, kind string) []*Term {
 			return []*Term{Eq(item, App("HB", "HItem", v))}
 		}
 		return []*Term{Eq(item, App("HI", "HItem", v))}
+	case kind == "called" || kind == "lastErr":
+		k := f.expr(st, e.Args[0])
+		if kind == "called" {
+			return []*Term{Select(c.heapGet(st, "G!called", ArrSort(SStr, SBool)), k)}
+		}
+		return []*Term{Select(c.heapGet(st, "G!lasterr", ArrSort(SStr, SIfc)), k)}
+	case kind == "tarCount" || kind == "lineCount":
+		v := f.expr(st, e.Args[0])
+		if v.Sort != SIfc {
+			v = f.convertTo(st, v, f.typeOf(e.Args[0]), types.NewInterfaceType(nil, nil))
+		}
+		cnt := App(c.ufun(kind, []Sort{SIfc}, SInt), SInt, v)
+		if c.inQuant == 0 {
+			c.assume(st, Ge(cnt, IntLit(0)))
+		}
+		return []*Term{cnt}
+	case kind == "tarPos":
+		v := f.expr(st, e.Args[0])
+		return []*Term{Select(c.heapGet(st, "TAR!pos", ArrSort(SInt, SInt)), v)}
+	case kind == "tarSrc":
+		v := f.expr(st, e.Args[0])
+		return []*Term{Select(c.heapGet(st, "TAR!src", ArrSort(SInt, SIfc)), v)}
+	case kind == "tarName" || kind == "lineAt":
+		v := f.expr(st, e.Args[0])
+		if v.Sort != SIfc {
+			v = f.convertTo(st, v, f.typeOf(e.Args[0]), types.NewInterfaceType(nil, nil))
+		}
+		return []*Term{App(c.ufun(kind, []Sort{SIfc, SInt}, SStr), SStr, v, f.expr(st, e.Args[1]))}
+	case kind == "scanPos":
+		v := f.expr(st, e.Args[0])
+		return []*Term{Select(c.heapGet(st, "SC!pos", ArrSort(SInt, SInt)), v)}
+	case kind == "scanOK":
+		return []*Term{App(c.ufun("scanOK", []Sort{SStr}, SBool), SBool, f.expr(st, e.Args[0]))}
+	case kind == "scanSha":
+		return []*Term{App(c.ufun("scanSha", []Sort{SStr}, SByt), SByt, f.expr(st, e.Args[0]))}
+	case kind == "scanFile":
+		return []*Term{App(c.ufun("scanFile", []Sort{SStr}, SStr), SStr, f.expr(st, e.Args[0]))}
 	case kind == "radixHas" || kind == "radixGet":
 		tr := f.expr(st, e.Args[0])
 		k := f.expr(st, e.Args[1])
@@ -836,7 +873,7 @@ func (f *Frame) checkFrame(st *State, entry *State, ct *Contract, ri int, where 
 		if !ok {
 			old = c.heapInit(h)
 		}
-		if same(cur, old) || h == "ALLOC" || strings.HasPrefix(h, "IT!") || strings.HasPrefix(h, "HS!") || strings.HasPrefix(h, "TX!") || h == "G!lastNow" || h == "G!lastRPCErr" {
+		if same(cur, old) || h == "ALLOC" || strings.HasPrefix(h, "IT!") || strings.HasPrefix(h, "HS!") || strings.HasPrefix(h, "TX!") || h == "G!lastNow" || h == "G!lastRPCErr" || h == "G!called" || h == "G!lasterr" || strings.HasPrefix(h, "TAR!") || strings.HasPrefix(h, "SC!") {
 			continue
 		}
 		whole := false
